@@ -129,6 +129,27 @@ theorem auto_threshold_affine {α : Q} (β : Q) (hα : 0 < α) (L : List Train) 
     defaultThreshSq (L.map (F4_affT α β)) = α ^ 2 * defaultThreshSq L :=
   _root_.PySpike.auto_threshold_affine β hα L
 
+/-- … multivariate SPIKE distance over a sub-interval (outside F9) -/
+theorem spike_distance_multi_mirror_interval_partial (kw : Kw) (idx : Option (List Nat)) {ts te : Q}
+    {L : List Train} (hv : B5_ValidList ts te L) (hi : F4_IdxOk idx L)
+    (hn : ∀ t ∈ L, t.spikes ≠ [ts] ∧ t.spikes ≠ [te]) {p q : Q}
+    (h0 : ts ≤ p) (hpq : p < q) (h1 : q ≤ te) :
+    spikeDistanceMulti { kw with interval := some (ts + te - q, ts + te - p) } idx (L.map D1_mirror)
+      = spikeDistanceMulti { kw with interval := some (p, q) } idx L :=
+  _root_.PySpike.G1_spike_distance_multi_mirror_interval_partial kw idx hv hi hn h0 hpq h1
+
+/-- the multivariate SPIKE profile mirrored, left limit = right limit of the original (outside F9) -/
+theorem spike_multi_profile_mirror_partial_right (kw : Kw) {ts te : Q} {L : List Train}
+    (hv : B5_ValidList ts te L) (h2 : 2 ≤ L.length)
+    (hn : ∀ a ∈ L, a.spikes ≠ [ts] ∧ a.spikes ≠ [te]) {t : Q} (ht0 : ts ≤ t) (ht1 : t < te) :
+    (spikeProfileMulti kw none (L.map D1_mirror)).evalL (ts + te - t)
+      = (spikeProfileMulti kw none L).evalR t :=
+  _root_.PySpike.G1_spike_multi_profile_mirror_partial_right kw hv h2 hn ht0 ht1
+
+/-- mirroring a train twice gives the train back -/
+theorem mirror_is_an_involution (a : Train) : D1_mirror (D1_mirror a) = a :=
+  _root_.PySpike.G1_mirror_mirror a
+
 end PySpike.C08
 
 namespace PySpike.C03
@@ -249,6 +270,30 @@ theorem sync_matrix_diagonal_one (kw : Kw) (idx : List Nat) (L : List Train) (ts
     (h : spikeSyncMatrix kw (some idx) L = some M) (i : Nat) (hi : i < idx.length) :
     (M.getD i []).getD i 0 = 1 :=
   _root_.PySpike.G2_sync_matrix_diagonal_one kw idx L ts te hv hl M h i hi
+
+/-- indices = None: every off-diagonal entry of the ISI matrix is the public pair distance, diagonal 0 -/
+theorem isi_matrix_entries_all (kw : Kw) (L : List Train) (ts te : Q)
+    (hv : B5_ValidList ts te L) (M : List (List Q)) (h : isiDistanceMatrix kw none L = some M)
+    (i j : Nat) (hi : i < L.length) (hj : j < L.length) :
+    (i ≠ j → isiDistanceBi kw (tr L i) (tr L j) = some ((M.getD i []).getD j 0)) ∧
+    (M.getD i []).getD i 0 = 0 :=
+  _root_.PySpike.G2_isi_matrix_entries_all kw L ts te hv M h i j hi hj
+
+/-- … SPIKE matrix -/
+theorem spike_matrix_entries_all (kw : Kw) (L : List Train) (ts te : Q)
+    (hv : B5_ValidList ts te L) (M : List (List Q)) (h : spikeDistanceMatrix kw none L = some M)
+    (i j : Nat) (hi : i < L.length) (hj : j < L.length) :
+    (i ≠ j → spikeDistanceBi kw (tr L i) (tr L j) = some ((M.getD i []).getD j 0)) ∧
+    (M.getD i []).getD i 0 = 0 :=
+  _root_.PySpike.G2_spike_matrix_entries_all kw L ts te hv M h i j hi hj
+
+/-- … SPIKE-Sync matrix (diagonal 1) -/
+theorem sync_matrix_entries_all (kw : Kw) (L : List Train) (ts te : Q)
+    (hv : B5_ValidList ts te L) (M : List (List Q)) (h : spikeSyncMatrix kw none L = some M)
+    (i j : Nat) (hi : i < L.length) (hj : j < L.length) :
+    (i ≠ j → spikeSyncBi kw (tr L i) (tr L j) = some ((M.getD i []).getD j 0)) ∧
+    (M.getD i []).getD i 0 = 1 :=
+  _root_.PySpike.G2_sync_matrix_entries_all kw L ts te hv M h i j hi hj
 
 end PySpike.C06
 
@@ -417,6 +462,23 @@ theorem sync_profile_api_monotone_in_max_tau (kw : Kw) (mt1 mt2 : Q) (a b : Trai
       (syncProfileBi { kw with maxTau := mt2 } a b).e :=
   _root_.PySpike.G2_sync_profile_api_monotone_in_max_tau kw mt1 mt2 a b ts te hv h
 
+/-- enlarging max_tau: a marked entry of the public order profile keeps its value -/
+theorem order_profile_api_monotone_in_max_tau (kw : Kw) (mt1 mt2 : Q) (a b : Train) (ts te : Q)
+    (hv : C4_Valid ts te [a, b]) (h : F2_MaxTauLe mt1 mt2) :
+    List.Forall₂ F2_EntryKeep (orderProfileBi { kw with maxTau := mt1 } a b).e
+      (orderProfileBi { kw with maxTau := mt2 } a b).e :=
+  _root_.PySpike.G2_order_profile_api_monotone_in_max_tau kw mt1 mt2 a b ts te hv h
+
+/-- … directionality values with an indices selection -/
+theorem directionality_within_max_tau_indices (kw : Kw) (idx : List Nat) (L : List Train)
+    (ts te : Q) (hv : B5_ValidList ts te L) (hl : idxValid idx L.length = true)
+    (hτ : 0 < kw.maxTau) (i k : Nat) (hi : i < idx.length)
+    (hne : ((dirValues kw (some idx) L).getD i []).getD k 0 ≠ 0) :
+    ∃ j, j < idx.length ∧ j ≠ i ∧ ∃ hk : k < (tr L (idx.getD i 0)).spikes.length,
+      ∃ y ∈ (tr L (idx.getD j 0)).spikes,
+        qabs ((tr L (idx.getD i 0)).spikes[k] - y) < kw.maxTau :=
+  _root_.PySpike.G2_directionality_within_max_tau_indices kw idx L ts te hv hl hτ i k hi hne
+
 end PySpike.C16
 
 namespace PySpike.C17
@@ -566,6 +628,12 @@ theorem multi_profiles_small_mrts_partial (kw : Kw) (m : Q) (L : List Train) (ts
     spikeProfileMulti { kw with mrts := m } none L = spikeProfileMulti { kw with mrts := 0 } none L ∧
     isiProfileMulti { kw with mrts := m } none L = isiProfileMulti { kw with mrts := 0 } none L :=
   _root_.PySpike.G3_spike_profile_multi_small_mrts_partial kw m L ts te hv h2 hF9 hm
+
+/-- bivariate SPIKE-Sync never decreases when MRTS is raised -/
+theorem spike_sync_bi_monotone_in_mrts (kw : Kw) (m1 m2 : Q) (x y : Train) (h : D4_VBi x y)
+    (hm : m1 ≤ m2) :
+    F6_OptGe (spikeSyncBi { kw with mrts := m2 } x y) (spikeSyncBi { kw with mrts := m1 } x y) :=
+  _root_.PySpike.G3_spike_sync_bi_monotone_in_mrts kw m1 m2 x y h hm
 
 end PySpike.C15
 
